@@ -56,7 +56,15 @@ Classed(x) == [x EXCEPT !.walls = [i \in DOMAIN @ |-> ClassedWall(@[i])]]
 
 TraceInit == l = 1 /\ m = EmptyModel /\ lock = "free" /\ Hz = <<>> /\ last = <<>>
 
-TraceTables == IsEvent("Tables") /\ Hz' = Ev.H /\ UNCHANGED <<m, lock, last>>
+\* the July table itself cannot be recomputed here (the zones other than D3 have no weather file in the repository), but it
+\* must be physically coherent: a climate with sunnier mornings than afternoons (or the reverse) shows it with the same sign
+\* in the three mirror pairs E/W, SE/SW, NE/NW. Differences below 1 kWh/m2 are not judged.
+SignOf(v) == IF v > 0 THEN 1 ELSE IF v < 0 THEN -1 ELSE 0
+PairsCoherent(h) ==
+  LET d1 == h.E - h.W  d2 == h.SE - h.SW  d3 == h.NE - h.NW IN
+  (Abs(d1) >= 100 /\ Abs(d2) >= 100 /\ Abs(d3) >= 100) => (SignOf(d1) = SignOf(d2) /\ SignOf(d2) = SignOf(d3))
+TraceTables == /\ IsEvent("Tables") /\ Hz' = Ev.H /\ UNCHANGED <<m, lock, last>>
+               /\ Chk("C10", "EastWestAsymmetryOfTheJulyTableIsCoherent", \A z \in DOMAIN Ev.H : PairsCoherent(Ev.H[z]))
 
 \* a model is loaded from JSON (or built by the concretiser); nothing to check
 TraceLoad == IsEvent("Load") /\ m' = Classed(Ev.model) /\ last' = <<>> /\ UNCHANGED <<lock, Hz>>
